@@ -269,7 +269,10 @@ def random_expr(rng, depth):
     if depth == 0 or rng.random() < 0.25:
         return rng.choice(OPERANDS + ["0", "0x0", "255", "0b1", "017", "100", "0XfF", "0B11", "9L", "8ull", "6lu",
                                       "sizeof( unsigned  long long )", "sizeof (signed char)", "sizeof(int24)",
-                                      "sizeof(long long)"])
+                                      "sizeof(long long)",
+                                      # operands beyond what a double holds exactly (the integers are unbounded)
+                                      "0x40000000000000", "0xBFFFFFFFFFFFFF", "4611686018427387906", "0x20000000000001",
+                                      "18446744073709551615", "0x10000000000000000"])
     x = rng.random()
     if x < 0.2:
         return f"{rng.choice(UNOPS)}{rng.choice(['', ' '])}{random_expr(rng, depth - 1)}"
